@@ -141,4 +141,146 @@ theorem exec_stepsBlk (prog : Program) (f6 f5 f4 f3 f2 f1 f0 : Nat)
     Lab.join_sec_left, Lab.join_sec_right, Lab.join_pub_pub]
   rfl
 
+
+/-! ### rounds: environments are described by lookups (`Inv`), memory by `KeyMem`; fuel levels by a function `f` with `f (i+1) = Fu (f i)` -/
+
+theorem size_envAfter (env : Env) (x0 kv a b c d k : Nat) : (envAfter env x0 kv a b c d k).size = env.size := by
+  simp only [envAfter, size_setVar]
+
+theorem envAfter_get (env : Env) (x0 kv a b c d k j : Nat) (h2 : ¬ 2 = j) (h3 : ¬ 3 = j) (h4 : ¬ 4 = j) (h5 : ¬ 5 = j)
+    (hk : ¬ kv = j) (hx : ¬ x0 = j) : (envAfter env x0 kv a b c d k)[j]? = env[j]? := by
+  simp only [envAfter, get_set_ne _ _ _ _ h2, get_set_ne _ _ _ _ h3, get_set_ne _ _ _ _ h4, get_set_ne _ _ _ _ h5,
+    get_set_ne _ _ _ _ hk, get_set_ne _ _ _ _ hx]
+
+theorem envAfter_get_x0 (env : Env) (x0 kv a b c d k : Nat) (h : x0 < env.size) :
+    (envAfter env x0 kv a b c d k)[x0]? = some (st32N a b c d k, Lab.sec) := by
+  unfold envAfter
+  rw [get_set_eq]
+  simp only [size_setVar]; exact h
+
+/-- what the loop needs to know about the environment: the state pointer, the round counter and the four state words -/
+structure Inv (env : Env) (ptr r a b c d : Nat) : Prop where
+  size : env.size = 26
+  e0 : env[0]? = some (ptr, Lab.pub)
+  e1 : env[1]? = some (r, Lab.pub)
+  e6 : env[6]? = some (a, Lab.sec)
+  e8 : env[8]? = some (b, Lab.sec)
+  e10 : env[10]? = some (c, Lab.sec)
+  e12 : env[12]? = some (d, Lab.sec)
+
+/-- what it needs to know about memory: the state object with its four key words -/
+structure KeyMem (st : St) (bs : Nat) (blk : Block) (k0 k1 k2 k3 : Nat) : Prop where
+  hb : st.mem[bs]? = some blk
+  al : blk.base % 4 = 0
+  lt : blk.base + 32 < ptrBase
+  bb : bs < 2 ^ 30
+  sz : 32 ≤ blk.bytes.size
+  r0 : readLE blk.bytes 16 4 = some (k0, Lab.sec)
+  r1 : readLE blk.bytes 20 4 = some (k1, Lab.sec)
+  r2 : readLE blk.bytes 24 4 = some (k2, Lab.sec)
+  r3 : readLE blk.bytes 28 4 = some (k3, Lab.sec)
+
+theorem KeyMem.leak {st : St} {bs : Nat} {blk : Block} {k0 k1 k2 k3 : Nat} (h : KeyMem st bs blk k0 k1 k2 k3) (l : List Ev) :
+    KeyMem { st with leak := l } bs blk k0 k1 k2 k3 := ⟨h.hb, h.al, h.lt, h.bb, h.sz, h.r0, h.r1, h.r2, h.r3⟩
+
+/-- one block at the head of a statement sequence -/
+theorem exec_seq_blk (prog : Program) (f : Nat → Nat) (hf : ∀ i, f (i + 1) = Fu (f i)) (m : Nat)
+    (env : Env) (st : St) (x0 x1 x2 x3 kv koff : Nat) (a b c d k : Nat) (bs : Nat) (blk : Block) (rest : Stmt)
+    (hsz : env.size = 26) (hx0 : x0 < 26) (hkv : 14 ≤ kv ∧ kv < 26)
+    (hx : (x0 = 6 ∨ x0 = 8 ∨ x0 = 10 ∨ x0 = 12) ∧ (x2 = 6 ∨ x2 = 8 ∨ x2 = 10 ∨ x2 = 12) ∧ (x3 = 6 ∨ x3 = 8 ∨ x3 = 10 ∨ x3 = 12))
+    (e0 : env[0]? = some (mkPtr bs blk.base, .pub)) (ea : env[x0]? = some (a, .sec)) (eb : env[x1]? = some (b, .sec))
+    (ec : env[x2]? = some (c, .sec)) (ed : env[x3]? = some (d, .sec))
+    (hb : st.mem[bs]? = some blk) (hbase : blk.base + koff + 4 < ptrBase) (hbb : bs < 2 ^ 30) (hal : (blk.base + koff) % 4 = 0)
+    (hko : koff + 4 ≤ blk.bytes.size) (hk : readLE blk.bytes koff 4 = some (k, .sec)) :
+    exec prog (f (m + 7)) (.seq (stepsBlk x0 x1 x2 x3 kv koff) rest) env st =
+      exec prog (f (m + 6)) rest (envAfter env x0 kv a b c d k) { st with leak := Ev.rd (mkPtr bs (blk.base + koff)) 4 :: st.leak } := by
+  rw [exec_seq' prog (hf (m + 6))]
+  rw [exec_stepsBlk prog (f (m + 6)) (f (m + 5)) (f (m + 4)) (f (m + 3)) (f (m + 2)) (f (m + 1)) (f m)
+    (hf _) (hf _) (hf _) (hf _) (hf _) (hf _) env st x0 x1 x2 x3 kv koff a b c d k bs blk
+    (by omega) (by omega) (by omega) (by omega) (by omega) (by omega) (by omega) (by omega) (by omega)
+    (by decide) (by omega) (by omega) e0 ea eb ec ed hb hbase hbb hal hko hk]
+
+
+theorem Inv.after6 {env : Env} {ptr r a b c d : Nat} (h : Inv env ptr r a b c d) (kv : Nat) (hkv : 14 ≤ kv ∧ kv < 26) (x y z w k : Nat) :
+    Inv (envAfter env 6 kv x y z w k) ptr r (st32N x y z w k) b c d :=
+  ⟨by rw [size_envAfter]; exact h.size,
+   by rw [envAfter_get _ _ _ _ _ _ _ _ _ (by omega) (by omega) (by omega) (by omega) (by omega) (by omega)]; exact h.e0,
+   by rw [envAfter_get _ _ _ _ _ _ _ _ _ (by omega) (by omega) (by omega) (by omega) (by omega) (by omega)]; exact h.e1,
+   by rw [envAfter_get_x0 _ _ _ _ _ _ _ _ (by rw [h.size]; omega)],
+   by rw [envAfter_get _ _ _ _ _ _ _ _ _ (by omega) (by omega) (by omega) (by omega) (by omega) (by omega)]; exact h.e8,
+   by rw [envAfter_get _ _ _ _ _ _ _ _ _ (by omega) (by omega) (by omega) (by omega) (by omega) (by omega)]; exact h.e10,
+   by rw [envAfter_get _ _ _ _ _ _ _ _ _ (by omega) (by omega) (by omega) (by omega) (by omega) (by omega)]; exact h.e12⟩
+
+theorem Inv.after8 {env : Env} {ptr r a b c d : Nat} (h : Inv env ptr r a b c d) (kv : Nat) (hkv : 14 ≤ kv ∧ kv < 26) (x y z w k : Nat) :
+    Inv (envAfter env 8 kv x y z w k) ptr r a (st32N x y z w k) c d :=
+  ⟨by rw [size_envAfter]; exact h.size,
+   by rw [envAfter_get _ _ _ _ _ _ _ _ _ (by omega) (by omega) (by omega) (by omega) (by omega) (by omega)]; exact h.e0,
+   by rw [envAfter_get _ _ _ _ _ _ _ _ _ (by omega) (by omega) (by omega) (by omega) (by omega) (by omega)]; exact h.e1,
+   by rw [envAfter_get _ _ _ _ _ _ _ _ _ (by omega) (by omega) (by omega) (by omega) (by omega) (by omega)]; exact h.e6,
+   by rw [envAfter_get_x0 _ _ _ _ _ _ _ _ (by rw [h.size]; omega)],
+   by rw [envAfter_get _ _ _ _ _ _ _ _ _ (by omega) (by omega) (by omega) (by omega) (by omega) (by omega)]; exact h.e10,
+   by rw [envAfter_get _ _ _ _ _ _ _ _ _ (by omega) (by omega) (by omega) (by omega) (by omega) (by omega)]; exact h.e12⟩
+
+theorem Inv.after10 {env : Env} {ptr r a b c d : Nat} (h : Inv env ptr r a b c d) (kv : Nat) (hkv : 14 ≤ kv ∧ kv < 26) (x y z w k : Nat) :
+    Inv (envAfter env 10 kv x y z w k) ptr r a b (st32N x y z w k) d :=
+  ⟨by rw [size_envAfter]; exact h.size,
+   by rw [envAfter_get _ _ _ _ _ _ _ _ _ (by omega) (by omega) (by omega) (by omega) (by omega) (by omega)]; exact h.e0,
+   by rw [envAfter_get _ _ _ _ _ _ _ _ _ (by omega) (by omega) (by omega) (by omega) (by omega) (by omega)]; exact h.e1,
+   by rw [envAfter_get _ _ _ _ _ _ _ _ _ (by omega) (by omega) (by omega) (by omega) (by omega) (by omega)]; exact h.e6,
+   by rw [envAfter_get _ _ _ _ _ _ _ _ _ (by omega) (by omega) (by omega) (by omega) (by omega) (by omega)]; exact h.e8,
+   by rw [envAfter_get_x0 _ _ _ _ _ _ _ _ (by rw [h.size]; omega)],
+   by rw [envAfter_get _ _ _ _ _ _ _ _ _ (by omega) (by omega) (by omega) (by omega) (by omega) (by omega)]; exact h.e12⟩
+
+theorem Inv.after12 {env : Env} {ptr r a b c d : Nat} (h : Inv env ptr r a b c d) (kv : Nat) (hkv : 14 ≤ kv ∧ kv < 26) (x y z w k : Nat) :
+    Inv (envAfter env 12 kv x y z w k) ptr r a b c (st32N x y z w k) :=
+  ⟨by rw [size_envAfter]; exact h.size,
+   by rw [envAfter_get _ _ _ _ _ _ _ _ _ (by omega) (by omega) (by omega) (by omega) (by omega) (by omega)]; exact h.e0,
+   by rw [envAfter_get _ _ _ _ _ _ _ _ _ (by omega) (by omega) (by omega) (by omega) (by omega) (by omega)]; exact h.e1,
+   by rw [envAfter_get _ _ _ _ _ _ _ _ _ (by omega) (by omega) (by omega) (by omega) (by omega) (by omega)]; exact h.e6,
+   by rw [envAfter_get _ _ _ _ _ _ _ _ _ (by omega) (by omega) (by omega) (by omega) (by omega) (by omega)]; exact h.e8,
+   by rw [envAfter_get _ _ _ _ _ _ _ _ _ (by omega) (by omega) (by omega) (by omega) (by omega) (by omega)]; exact h.e10,
+   by rw [envAfter_get_x0 _ _ _ _ _ _ _ _ (by rw [h.size]; omega)]⟩
+
+/-- one 128-step round of the C code on naturals -/
+def roundN (a b c d k0 k1 k2 k3 : Nat) : Nat × Nat × Nat × Nat :=
+  let a' := st32N a b c d k0
+  let b' := st32N b c d a' k1
+  let c' := st32N c d a' b' k2
+  let d' := st32N d a' b' c' k3
+  (a', b', c', d')
+
+/-- four blocks (one round, key words at offsets o, o+4, o+8, o+12 of the state object) at the head of a statement sequence -/
+theorem exec_round (prog : Program) (f : Nat → Nat) (hf : ∀ i, f (i + 1) = Fu (f i)) (m : Nat)
+    (env : Env) (st : St) (ptr r a b c d : Nat) (kva kvb kvc kvd : Nat) (o : Nat) (k0 k1 k2 k3 : Nat) (bs : Nat) (blk : Block) (rest : Stmt)
+    (inv : Inv env ptr r a b c d) (hptr : ptr = mkPtr bs blk.base)
+    (ha : 14 ≤ kva ∧ kva < 26) (hb' : 14 ≤ kvb ∧ kvb < 26) (hc : 14 ≤ kvc ∧ kvc < 26) (hd : 14 ≤ kvd ∧ kvd < 26)
+    (hb : st.mem[bs]? = some blk) (hal : blk.base % 4 = 0) (ho : o % 4 = 0) (hlt : blk.base + o + 16 < ptrBase) (hbb : bs < 2 ^ 30)
+    (hsz : o + 16 ≤ blk.bytes.size)
+    (r0 : readLE blk.bytes o 4 = some (k0, .sec)) (r1 : readLE blk.bytes (o + 4) 4 = some (k1, .sec))
+    (r2 : readLE blk.bytes (o + 8) 4 = some (k2, .sec)) (r3 : readLE blk.bytes (o + 12) 4 = some (k3, .sec)) :
+    ∃ env' leak', exec prog (f (m + 10))
+        (.seq (stepsBlk 6 8 10 12 kva o) (.seq (stepsBlk 8 10 12 6 kvb (o + 4)) (.seq (stepsBlk 10 12 6 8 kvc (o + 8)) (.seq (stepsBlk 12 6 8 10 kvd (o + 12)) rest)))) env st =
+      exec prog (f (m + 6)) rest env' { st with leak := leak' } ∧
+      Inv env' ptr r (roundN a b c d k0 k1 k2 k3).1 (roundN a b c d k0 k1 k2 k3).2.1 (roundN a b c d k0 k1 k2 k3).2.2.1 (roundN a b c d k0 k1 k2 k3).2.2.2 := by
+  subst hptr
+  have i1 := inv.after6 kva ha a b c d k0
+  have i2 := i1.after8 kvb hb' b c d (st32N a b c d k0) k1
+  have i3 := i2.after10 kvc hc c d (st32N a b c d k0) (st32N b c d (st32N a b c d k0) k1) k2
+  have i4 := i3.after12 kvd hd d (st32N a b c d k0) (st32N b c d (st32N a b c d k0) k1) (st32N c d (st32N a b c d k0) (st32N b c d (st32N a b c d k0) k1) k2) k3
+  refine ⟨_, Ev.rd (mkPtr bs (blk.base + (o + 12))) 4 :: Ev.rd (mkPtr bs (blk.base + (o + 8))) 4 :: Ev.rd (mkPtr bs (blk.base + (o + 4))) 4 ::
+    Ev.rd (mkPtr bs (blk.base + o)) 4 :: st.leak, ?_, i4⟩
+  rw [show m + 10 = m + 3 + 7 from by omega]
+  rw [exec_seq_blk prog f hf (m + 3) env st 6 8 10 12 kva o a b c d k0 bs blk _ inv.size (by omega) ha (by omega)
+    inv.e0 inv.e6 inv.e8 inv.e10 inv.e12 hb (by omega) hbb (by omega) (by omega) r0]
+  rw [show m + 3 + 6 = m + 2 + 7 from by omega]
+  rw [exec_seq_blk prog f hf (m + 2) _ { st with leak := Ev.rd (mkPtr bs (blk.base + o)) 4 :: st.leak } 8 10 12 6 kvb (o + 4) b c d (st32N a b c d k0) k1 bs blk _ i1.size (by omega) hb' (by omega)
+    i1.e0 i1.e8 i1.e10 i1.e12 i1.e6 hb (by omega) hbb (by omega) (by omega) r1]
+  rw [show m + 2 + 6 = m + 1 + 7 from by omega]
+  rw [exec_seq_blk prog f hf (m + 1) _ { st with leak := Ev.rd (mkPtr bs (blk.base + (o + 4))) 4 :: Ev.rd (mkPtr bs (blk.base + o)) 4 :: st.leak } 10 12 6 8 kvc (o + 8) c d (st32N a b c d k0) (st32N b c d (st32N a b c d k0) k1) k2 bs blk _ i2.size (by omega) hc (by omega)
+    i2.e0 i2.e10 i2.e12 i2.e6 i2.e8 hb (by omega) hbb (by omega) (by omega) r2]
+  rw [show m + 1 + 6 = m + 7 from by omega]
+  rw [exec_seq_blk prog f hf m _ { st with leak := Ev.rd (mkPtr bs (blk.base + (o + 8))) 4 :: Ev.rd (mkPtr bs (blk.base + (o + 4))) 4 :: Ev.rd (mkPtr bs (blk.base + o)) 4 :: st.leak } 12 6 8 10 kvd (o + 12) d (st32N a b c d k0) (st32N b c d (st32N a b c d k0) k1)
+    (st32N c d (st32N a b c d k0) (st32N b c d (st32N a b c d k0) k1) k2) k3 bs blk _ i3.size (by omega) hd (by omega)
+    i3.e0 i3.e12 i3.e6 i3.e8 i3.e10 hb (by omega) hbb (by omega) (by omega) r3]
+
 end TJ.MiniC.PermC
